@@ -1213,6 +1213,6 @@ def moves_within_strings(c, chk, rid='R2.20'):
         f, p, e, end, limit = bad
         chk.fail(rid, 'move-past-terminator:%s' % f.name, c.where(e.ins), '%s() moves bytes up to position %s of a string whose terminator is at position %s: it reads behind the terminator, '
                  'one byte past the end of a copy that is exactly as long as its text (%s)' % (f.name, end, limit.add(bs.Lin(-1)), fp.cond_text(p, 4)))
-    elif n:
-        chk.ok(rid, '%d moves measured with strlen()' % n, 'each ends at the terminator at the latest', sample=True)
-    chk.floor('%s moves measured with strlen()' % rid, n, 1)
+    else:
+        # (no floor: a resolver that un-escapes titles without such a move - byte by byte, say - has nothing to bound here)
+        chk.ok(rid, '%d moves measured with strlen()' % n, 'each ends at the terminator at the latest' if n else 'no block move is measured with strlen()', sample=True, nontrivial=bool(n))
